@@ -1,3 +1,7 @@
+(* SNAPSHOT (frozen copy, taken for the Reset-equivalence proof EngineResetProofs.v) of
+   proofs/EngineSafetyRL.v as of 2026-10-01 23:40, truncated before its final theorem
+   readLitDistLens_spec (not needed; EngineResetHdr3.v proves the histogram invariant without
+   bit-reader hypotheses). *)
 (* EngineSafetyRL.v -- safety of the code-length reader readLitDistLens (rl_loop, rl_put, rl_rep,
    clc_decode, expand_adjust) of RModel/Engine.v, and the histogram invariants it establishes
    (rl_post).  Main theorem: readLitDistLens_spec (statement exactly as requested). *)
